@@ -205,6 +205,7 @@ class State:
         self.data_owner = {}    # str(z3 addr term) of a _data cell -> node value (ObjV) owning it
         self.frames = []        # call stack of FuncInfo (diagnostics / recursion guard)
         self.ghost = {}         # python-side ghost registers (snapshots taken by contracts/intrinsics)
+        self.evdepth = []       # per event: the lock-depth array at that moment (guarded-by obligations)
 
     def copy(self):
         s = State.__new__(State)
@@ -219,6 +220,7 @@ class State:
         s.data_owner = dict(self.data_owner)
         s.frames = list(self.frames)
         s.ghost = dict(self.ghost)
+        s.evdepth = list(self.evdepth)
         return s
 
     def assume(self, *fs):
@@ -238,6 +240,7 @@ class State:
 
     def event(self, *e):
         self.events.append(e)
+        self.evdepth.append(self.g.get("Depth"))
 
     # convenience accessors for contracts / obligations -------------------------------------
     def sel(self, gname, idx):
